@@ -79,6 +79,8 @@ def cases(tier, seed):
         kinds = [None]
         if tier == "thorough":
             kinds = list(S.make(fn).kinds)
+        elif fn == "solve_ivp":
+            kinds = [None, "pure_list"]     # the list-of-tensors state takes its own branch of the front end
         methods = list(S.BUILTINS[fn]) + ["closed"] + ["wrap:" + b for b in S.BUILTINS[fn]]
         for ik, kind in enumerate(kinds):
             k = kind or S.make(fn).kinds[0]
